@@ -5,10 +5,16 @@ package consensus
 import "github.com/lianxiangcloud/linkchain/types"
 
 // Add-only test seam for check C17 (see /verif/harness/cmd/c17). Nothing here changes behaviour; it only makes
-// one unexported function of this package callable from the harness.
+// two unexported functions of this package callable from the harness.
 
 // VerifC17UpdateStatus calls the unexported updateStatus: the step that derives the status (and with it the
 // validator set of the next height) from the committed header and the validator list returned by the application.
 func VerifC17UpdateStatus(status NewStatus, blockID types.BlockID, header *types.Header, validators []*types.Validator) (NewStatus, error) {
 	return updateStatus(status, blockID, header, validators)
+}
+
+// VerifC17LastFaultValsInfo calls the unexported getLastFaultValsInfo: the fault-validator record a proposer puts
+// into the next block (who was the round-0 proposer of the last height, who proposed in the commit round).
+func VerifC17LastFaultValsInfo(cs *ConsensusState, lastCommit *types.Commit) types.Evidence {
+	return cs.getLastFaultValsInfo(lastCommit)
 }
